@@ -525,6 +525,7 @@ class NavMachine(ListingBase):
 
     # ---- deterministic sweep: every navigation sequence up to a bound (C07 quantifier)
     _LAYOUT = {}
+    SWEEP_QUICK = 300
 
     @classmethod
     def nav_alphabet(cls, n):
